@@ -260,6 +260,11 @@ class P:
                     e = ("call", name, e, args)
                 else:
                     e = ("field", e, name)
+            elif k == "op" and v == "[":
+                self.eat()
+                ix = self.expr()
+                self.eat("op", "]")
+                e = ("index", e, ix)
             elif k == "op" and v == "(" and e[0] == "var":
                 self.eat()
                 args = []
@@ -306,6 +311,9 @@ class Env:
 def path_of(e):
     if e[0] == "var":
         return e[1]
+    if e[0] == "index" and e[2][0] == "num":
+        p = path_of(e[1])
+        return None if p is None else "%s[%d]" % (p, e[2][1])
     if e[0] == "field":
         p = path_of(e[1])
         return None if p is None else p + "." + e[2]
@@ -320,7 +328,7 @@ def coq(e, env):
         return "%d" % e[1]
     if k == "bool":
         return "true" if e[1] else "false"
-    if k in ("var", "field"):
+    if k in ("var", "field", "index"):
         p = path_of(e)
         if p in env.paths:
             return env.paths[p]
